@@ -304,12 +304,11 @@ def task_section(pr, repo):
             if shape == ['lit', 'fmt', 'fmt', 'lit', 'fmt', 'lit', 'fmt', 'lit']:
                 conj.append(P[0][1].endswith('    pH  unfolded  folded\n'))
                 for i in range(2):
-                    t, a, k = P[1 + i][1], P[1 + i][2], P[1 + i][3]
-                    conj.append(t == '{ph:6.2f}{qm:10.2f}{qp:8.2f}\n' and not a)
-                    conj.append(And(k.get('ph') == rows[i][0], k.get('qm') == rows[i][1], k.get('qp') == rows[i][2]))
+                    vals = FmtStr.values_of(P[1 + i])
+                    conj.append(len(vals) == 3 and vals[0] is rows[i][0] and vals[1] is rows[i][1] and vals[2] is rows[i][2])
                 # "The pI is {folded} (folded) and {unfolded} (unfolded)"
                 conj.append(P[3][1] == 'The pI is ' and P[5][1] == ' (folded) and ' and P[7][1] == ' (unfolded)\n')
-                conj.append(And(P[4][2][0] == R('pi_folded'), P[6][2][0] == R('pi_unfolded')))
+                conj.append(And(FmtStr.values_of(P[4])[0] == R('pi_folded'), FmtStr.values_of(P[6])[0] == R('pi_unfolded')))
         ctx.oblige('charge section: header "pH unfolded folded", each profile row printed as (ph, unfolded, folded), '
                    'pI sentence carries (folded, unfolded) in this order', And(*conj))
         return s
